@@ -43,6 +43,8 @@ def run_unit(prop, unit, tier, seed):
     try:
         if kind == "pyvc":
             rec = run_pyvc(unit, tier)
+        elif kind == "xlift":
+            rec = run_xlift(unit, tier, seed)
         else:
             mod = importlib.import_module(unit["module"])
             rec = getattr(mod, unit["func"])(tier=tier, seed=seed, **unit.get("args", {}))
@@ -52,6 +54,36 @@ def run_unit(prop, unit, tier, seed):
     rec["unit"] = unit["name"]
     rec["mechanism"] = unit.get("mechanism", kind)
     rec["wall_s"] = round(time.time() - t0, 2)
+    return rec
+
+
+def run_xlift(unit, tier, seed):
+    """xlift tasks run in their own interpreter (the import hook must be installed before lightworks is imported)"""
+    import subprocess
+    kwargs = dict(unit.get("args", {}))
+    kwargs.update(tier=tier, seed=seed)
+    env = dict(os.environ)
+    env["PYTHONPATH"] = ROOT + (os.pathsep + REPO if REPO != "/repo" else "")
+    p = subprocess.run([sys.executable, "-m", "vf.xlift.runner", unit["module"], unit["func"], json.dumps(kwargs)],
+                       capture_output=True, text=True, cwd=ROOT, env=env, timeout=unit.get("timeout", 3000))
+    if "@@RESULT@@" not in p.stdout:
+        return dict(status="crash", error=(p.stderr or p.stdout)[-2000:], obligations=[])
+    rec = json.loads(p.stdout.split("@@RESULT@@")[1])
+    # native replay of refuted identities on the unmodified package (plain floats)
+    for o in rec.get("obligations", []):
+        if o["result"] == "refuted" and o.get("replay_spec"):
+            sp = o["replay_spec"]
+            try:
+                q = subprocess.run([sys.executable, "-c",
+                                    "import sys, json, importlib; sys.path.insert(0, %r); a = json.loads(sys.argv[1]); "
+                                    "m = importlib.import_module(a['module']); print('@@R@@' + json.dumps(getattr(m, a['func'])(*a.get('args', []))))" % ROOT,
+                                    json.dumps(sp, default=str)], capture_output=True, text=True, cwd=ROOT, env=env, timeout=600)
+                if "@@R@@" in q.stdout:
+                    o["replayed"] = json.loads(q.stdout.split("@@R@@")[1])
+                else:
+                    o["replay_error"] = (q.stderr or q.stdout)[-500:]
+            except Exception as e:  # noqa: BLE001
+                o["replay_error"] = str(e)
     return rec
 
 
